@@ -37,10 +37,15 @@ def run_ppa(ctx, rule, ppa, scope, floor):
     n = 0
     nrev = 0
     for f in sorted(scope, key=lambda f: f.id):
+        seen_keys = {}
         for o in P.enumerate_obligations(ppa, f):
             n += 1
             ok, why = P.decide(ppa, o)
-            key = "%s:%s" % (rule, o.key())
+            okey = o.key()
+            seen_keys[okey] = seen_keys.get(okey, 0) + 1
+            if seen_keys[okey] > 1:
+                okey = "%s#%d" % (okey, seen_keys[okey])      # identical operand text twice in one function: number them
+            key = "%s:%s" % (rule, okey)
             loc = "%s:%s" % (f.file, o.line)
             if not ok:
                 ok2, why2 = P.decide_at_callers(ppa, o)
